@@ -974,6 +974,7 @@ func (P) Generate(g *core.Gen) {
 	x.helperAPIs()
 	x.primitives()
 	x.byteSweeps()
+	x.round3()
 	// random garbage into every decoder
 	for i := 0; i < g.N(300, 6000); i++ {
 		kind := kinds[r.Intn(len(kinds))]
@@ -1450,5 +1451,182 @@ func (x *gen) byteSweeps() {
 	}
 	for v := 0; v < 256; v++ {
 		x.emit("sweep:varint", true, "C08 varint "+hx([]byte{byte(v), 0xfc, 0, 0, 0, 0, 0, 0, 0}))
+	}
+}
+
+// round3: constructor-built shapes (nil vs empty-but-non-nil), one value reused across calls and goroutines,
+// heterogeneous items, the violating element at the first / a middle / the last position.
+func (x *gen) round3() {
+	r := x.r
+	hexs := func(n int) string { return hx(r.Bytes(n)) }
+	shape := func() string {
+		switch r.Intn(4) {
+		case 0:
+			return "n"
+		case 1:
+			return "-"
+		}
+		return hexs(1 + r.Intn(4))
+	}
+	wit := func(force string) string {
+		if force != "" {
+			return force
+		}
+		switch r.Intn(5) {
+		case 0:
+			return "n"
+		case 1:
+			return "e"
+		case 2:
+			return "-" // one empty non-nil item: HasWitness is true, the item is empty
+		case 3:
+			return "n.-." + hexs(2) // nil item, empty item, data item
+		}
+		return hexs(1 + r.Intn(3)) + "." + hexs(1)
+	}
+	in := func(w string) string {
+		h := x.hash()
+		return fmt.Sprintf("%s:%d:%s:%d:%s", hx(h[:]), x.u32(), shape(), x.u32(), wit(w))
+	}
+	mk := func(ins, outs string) {
+		x.emit("mktx", true, fmt.Sprintf("C08 mktx %d %d %s %s", x.u32(), x.u32(), ins, outs))
+	}
+	outsOf := func(n int) string {
+		if n == 0 {
+			return []string{"n", "e"}[r.Intn(2)]
+		}
+		var o []string
+		for i := 0; i < n; i++ {
+			o = append(o, fmt.Sprintf("%d:%s", x.u64(), shape()))
+		}
+		return joinWith(o, ";")
+	}
+	// every combination of (nil | empty | items) witness on two inputs, with nil/empty scripts and outputs
+	for _, w0 := range []string{"n", "e", "-", "ab", "n.-"} {
+		for _, w1 := range []string{"n", "e", "-", "cd.ef"} {
+			mk(in(w0)+";"+in(w1), outsOf(r.Intn(3)))
+		}
+	}
+	for _, ins := range []string{"n", "e"} {
+		for _, outs := range []string{"n", "e", "5:n", "5:-", "5:51;6:n"} {
+			mk(ins, outs)
+		}
+	}
+	for i := 0; i < x.g.N(120, 1200); i++ {
+		var is []string
+		for k := 1 + r.Intn(4); k > 0; k-- {
+			is = append(is, in(""))
+		}
+		mk(joinWith(is, ";"), outsOf(r.Intn(4)))
+	}
+	// one value, many calls (sequential and concurrent), both encodings
+	for _, kind := range []string{"tx", "block", "inv", "headers", "addr", "version", "merkleblock", "cfheaders", "reject", "getblocks", "addrv2", "ping", "cfcheckpt", "filterload"} {
+		for i := 0; i < x.g.N(3, 30); i++ {
+			bb := x.build(kind)
+			e := "b"
+			if kind == "tx" || kind == "block" {
+				e = "w"
+			}
+			if p, ok := x.payload(bb, 70016, e); ok && len(p) < 60000 {
+				x.emit("reuse", true, fmt.Sprintf("C08 reuse %s 70016 %s", kind, hx(p)))
+			}
+		}
+	}
+	// heterogeneous items: a block whose transactions differ in every attribute
+	for i := 0; i < x.g.N(10, 100); i++ {
+		b := &wire.MsgBlock{Header: x.header()}
+		shapes := []func() *wire.MsgTx{
+			func() *wire.MsgTx { return x.tx(1, 0, false) },
+			func() *wire.MsgTx { return x.tx(2, 3, true) },
+			func() *wire.MsgTx { t := x.tx(3, 1, false); t.Version = -1; return t },
+			func() *wire.MsgTx { t := x.tx(1, 2, true); t.TxIn[0].Witness = [][]byte{{}}; t.LockTime = 0xffffffff; return t },
+			func() *wire.MsgTx { t := x.tx(4, 4, false); t.TxIn[3].Witness = [][]byte{{1}}; return t }, // witness only on the last input
+		}
+		perm := r.Intn(len(shapes))
+		for k := 0; k < len(shapes); k++ {
+			b.Transactions = append(b.Transactions, shapes[(k+perm)%len(shapes)]())
+		}
+		var w bytes.Buffer
+		b.Serialize(&w)
+		x.emit("hetero", true, "C08 blkapi "+hx(w.Bytes()))
+		x.emit("hetero", true, "C08 blk "+[]string{"new", "bytes", "reader", "blockandbytes"}[r.Intn(4)]+" "+hx(w.Bytes())+" N,t4,B,T,L,h0,N,B")
+		x.dec("hetero", "block", 70016, "w", w.Bytes(), true)
+		x.dec("hetero", "block", 70016, "b", w.Bytes(), true)
+	}
+	// the violating element at the first, a middle and the last position
+	vi := func(v uint64) []byte {
+		var w bytes.Buffer
+		wire.WriteVarInt(&w, 0, v)
+		return w.Bytes()
+	}
+	const n = 5
+	for _, pos := range []int{0, 2, n - 1} {
+		// headers: entry `pos` carries a non-zero transaction count
+		hb := vi(n)
+		for i := 0; i < n; i++ {
+			h := x.header()
+			var w bytes.Buffer
+			h.Serialize(&w)
+			hb = append(hb, w.Bytes()...)
+			if i == pos {
+				hb = append(hb, 1)
+			} else {
+				hb = append(hb, 0)
+			}
+		}
+		x.dec("position", "headers", 70016, "b", hb, true)
+		// addrv2: entry `pos` has a wrong address length for its network / a network that is skipped
+		for _, bad := range []int{0, 1} {
+			ab := vi(n)
+			for i := 0; i < n; i++ {
+				e := append([]byte{1, 2, 3, 4}, 0x05)
+				if i == pos && bad == 0 {
+					e = append(e, 1, 5) // ipv4 with 5 bytes
+					e = append(e, r.Bytes(5)...)
+				} else if i == pos {
+					e = append(e, 5, 32) // i2p: skipped (F-C08-b)
+					e = append(e, r.Bytes(32)...)
+				} else {
+					e = append(e, 1, 4)
+					e = append(e, r.Bytes(4)...)
+				}
+				ab = append(ab, append(e, 0x20, 0x8d)...)
+			}
+			x.dec("position", "addrv2", 70016, "b", ab, true)
+		}
+		// block: transaction `pos` carries a superfluous witness record / flag 00 / a non-minimal count
+		for _, bad := range []int{0, 1, 2} {
+			bl := append(make([]byte, 80), vi(n)...)
+			for i := 0; i < n; i++ {
+				t := serTx(x.tx(1, 1, false))
+				if i == pos {
+					switch bad {
+					case 0: // marker, flag 01, but no witness data anywhere
+						t = append(append(append([]byte{}, t[:4]...), 0, 1), t[4:]...)
+						t = append(append([]byte{}, t[:len(t)-4]...), append([]byte{0}, t[len(t)-4:]...)...)
+					case 1:
+						t = append(append(append([]byte{}, t[:4]...), 0, 0), t[4:]...)
+					case 2:
+						t = append(append(append([]byte{}, t[:4]...), 0xfd, 1, 0), t[5:]...)
+					}
+				}
+				bl = append(bl, t...)
+			}
+			x.dec("position", "block", 70016, "w", bl, true)
+			x.emit("position", true, "C08 blockbytes "+hx(bl))
+		}
+		// inv list inside a message whose entry `pos` is cut short is covered by truncation; tx: oversize claim on input `pos`
+		tb := append(make([]byte, 4), vi(n)...)
+		for i := 0; i < n; i++ {
+			tb = append(tb, make([]byte, 36)...)
+			if i == pos {
+				tb = append(tb, vi(4000001)...)
+			} else {
+				tb = append(tb, 0)
+			}
+			tb = append(tb, 0, 0, 0, 0)
+		}
+		tb = append(tb, 0, 0, 0, 0, 0)
+		x.dec("position", "tx", 70016, "b", tb, true)
 	}
 }
